@@ -113,6 +113,17 @@ def gen_unary(rng, cx=False):
             # complex dtype whose imaginary parts are exactly zero (real data that became complex on the way)
             for shp in ((3,), (2, 2)):
                 yield case(name, [onp.abs(A(rng, shp, dom, False)).astype(complex)], tags=["zero_imag"])
+    # out= : the caller's output buffer (a fresh one per call) - the primal result goes there, nothing else may
+    dt = "complex128" if cx else "float64"
+    for name in ("negative", "sin", "exp", "square", "conj", "real", "sqrt", "tanh", "reciprocal", "abs", "sign", "cumsum", "sum", "mean", "prod", "cumprod", "transpose", "ravel"):
+        if cx and name in NO_COMPLEX:
+            continue
+        shp = (3,)
+        oshp = () if name in ("sum", "mean", "prod") else shp
+        odt = "float64" if name in ("real", "abs") else dt
+        if name in ("transpose", "ravel"):
+            continue
+        yield case(name, [A(rng, shp, "pos", cx)], fresh_out=[list(oshp), odt], tags=["out_buffer"])
     # kinks: abs/absolute/fabs at exact zeros
     if not cx:
         for name in ("abs", "absolute", "fabs"):
@@ -225,6 +236,20 @@ def gen_binary(rng, cx=False):
                 yield case(op, [scal(rng, da, ca), A(rng, s2, db, cb)], argnum=1, form="operator")
                 yield case(op, [scal(rng, da, ca), scal(rng, db, cb)], argnum=1, form="operator")
                 yield case(op, [scal(rng, da, ca), scal(rng, db, cb)], argnum=0, form="operator")
+    dt = "complex128" if cx else "float64"
+    for name in ("add", "subtract", "multiply", "divide", "true_divide", "power", "maximum", "minimum", "arctan2", "hypot"):
+        if cx and name in BIN_NO_COMPLEX:
+            continue
+        for argnum in (0, 1):
+            yield case(name, [A(rng, (3,), "pos", cx), A(rng, (3,), "pos", cx)], argnum=argnum, fresh_out=[[3], dt], tags=["out_buffer"])
+            yield case(name, [A(rng, (3,), "pos", cx), A(rng, (2, 3), "pos", cx)], argnum=argnum, fresh_out=[[2, 3], dt], tags=["out_buffer"])
+        yield case(name, [A(rng, (3,), "pos", cx), 1.7], argnum=0, fresh_out=[[3], dt], tags=["out_buffer"])
+    for name, args_, oshp in (("dot", [A(rng, (2, 3), "any", cx), A(rng, (3, 2), "any", cx)], [2, 2]), ("matmul", [A(rng, (2, 3), "any", cx), A(rng, (3, 2), "any", cx)], [2, 2]), ("outer", [A(rng, (2,), "any", cx), A(rng, (3,), "any", cx)], [2, 3]),
+                              ("clip", [A(rng, (3,), "any", cx), -0.5, 0.5], [3]), ("where", [onp.array([True, False, True]), A(rng, (3,), "any", cx), A(rng, (3,), "any", cx)], None)):
+        if oshp is None or (cx and name == "clip"):
+            continue
+        for argnum in range(2 if name != "clip" else 1):
+            yield case(name, args_, argnum=argnum, fresh_out=[oshp, dt], tags=["out_buffer"])
     if not cx:
         # power: integer exponents, negative base with integer exponent, exponent classes
         for r in (0, 1, 2):
